@@ -829,7 +829,7 @@ func (e *Exec) execBlock(rg *region, b *ssa.BasicBlock, st *State) {
 			continue
 		case *ssa.If:
 			c := e.fold(e.val(fr, st, x.Cond))
-			if debugFold && len(e.facts) > 0 && !c.IsTrue() && !c.IsFalse() && debugFoldN < 12 {
+			if debugFold && len(e.facts) > 0 && !c.IsTrue() && !c.IsFalse() && debugFoldN < 40 {
 				debugFoldN++
 				fmt.Fprintf(os.Stderr, "unfolded branch in %s: %s\n", fr.fn.Name(), c.Short(400))
 				if debugFoldN == 1 {
@@ -1093,6 +1093,12 @@ func (e *Exec) execInstr(fr *frame, st *State, instr ssa.Instruction) {
 		p := e.newObj(st)
 		e.zeroInit(st, p, t)
 		fr.vals[x] = p
+		if len(e.frames) == 2 && len(e.hstack) > 0 && e.hstack[0].con != nil && e.hstack[0].con.LocalsSurvive && !isAggregate(t) {
+			// a local of the function under contract that lives in the heap only because a closure of the same
+			// function captures it: callees have no pointer to it
+			e.heapSort[cellKey(t)] = smt.Array(AddrS, e.W.SortOf(t))
+			e.keepOnHavoc = append(e.keepOnHavoc, frameLoc{cellKey(t), p})
+		}
 	case *ssa.Store:
 		if a, ok := x.Addr.(*ssa.Alloc); ok && e.isCell(fr, a) {
 			st.Cells[a] = e.val(fr, st, x.Val)
